@@ -9,10 +9,10 @@ PROPS_FILES = ['Props/Properties_C13.v']
 THEOREMS = ['C13_exists', 'C13_exact', 'C13_confined', 'C13_bounce_line', 'C13_checker_sound', 'C13_model_passes_checker',
             'C13_reply', 'C13_reply_exact', 'C13_model_passes_rcpt_checker',
             'C13_cdb_safe', 'C13_cdb_terminates', 'C13_vget_safe', 'C13_cdb_lookup', 'C13_cdb_make_wf', 'C13_vget_found',
-            'C13_exists_file', 'C13_confined_file']
+            'C13_exists_file', 'C13_confined_file', 'C13_ds_outcome', 'C13_ds_no_leak', 'C13_ds_ok']
 SHRINK_FROM = 3      # keep users/cdb and the domain of a failing case, shrink layout / bounce / local part / tail
 ENGINES = [dict(name='vpop', c_sources=['vpop_h.c'], extract='Extract/Extract_vpop.v', driver='vpop_driver.ml',
-                glue=('glue.ml', 'glue_z.ml'), accepts=lambda c: c.startswith('c1 ') or c.startswith('c2 ')),
+                glue=('glue.ml', 'glue_z.ml'), accepts=lambda c: c[:3] in ('c1 ', 'c2 ', 'c3 ')),
            dict(name='cdb', c_sources=['cdb_h.c'], extract='Extract/Extract_cdb.v', driver='cdb_driver.ml',
                 glue=('glue.ml', 'glue_z.ml'), accepts=lambda c: c[:3] in ('d1 ', 'd2 ', 'a1 '))]
 RULE = ('c1 cases = user_exists() on (users/cdb records, domain, domain directory layout, control/vpopbounce, local part, bytes following the local '
@@ -204,11 +204,30 @@ def gen_rcpt(rng):
     return case(recs, randcase(rng, dom), gen_layout(rng, local.lower(), b'@' + dom, bounce), bounce, local, b'').replace('c1 ', 'c2 ', 1)
 
 
+def gen_seq(rng):
+    """c3: several user_exists() calls on one struct userconf (the global cache of MAIL FROM): same domain again, a domain
+    with the same / another directory, unknown domains, absent users in between (userconf_free() resets the structure)"""
+    doms = [d for d in DOMS if rng.random() < 0.7] or [DOMS[0]]
+    recs = [(rng.choice('dddDDmf'), d) for d in doms]
+    bounce = rng.choice([None, b'/bounce\n'])
+    users = [b'user', b'u2', b'abs-ent', b'nobody', b'baz-x', b'..', b'a/b']
+    layout = [('d', b'user'), ('d', b'u2'), ('f', b'.qmail-baz-default', b'')]
+    if rng.random() < 0.5:
+        layout.append(('f', b'.qmail-default', rng.choice([b'/bounce\n', b'|x\n'])))
+    if rng.random() < 0.2:
+        layout.append(('e', b'nobody', rng.choice([5, 13, 24])))
+    k = rng.randrange(1, 12)
+    ds = [rng.choice(doms + [b'unknown.example']) for _ in range(k)]
+    ls = [rng.choice(users) for _ in range(k)]
+    enc = lambda xs: b''.join(bytes([len(x)]) + x for x in xs)
+    return ' '.join(['c3', R.hx(cdb(recs)), R.hx(enc(ds)), R.hx(lay(layout)), R.hx(b'' if bounce is None else b'b' + bounce), R.hx(enc(ls)), '-'])
+
+
 def gen_cases(engine, rng, tier):
     if engine == 'cdb':
         return c13_cdbgen.gen_cases(rng, tier)
     n = 2200 if tier == 'quick' else 40000
-    out = [gen_rcpt(rng) for _ in range(n // 4)]
+    out = [gen_rcpt(rng) for _ in range(n // 4)] + [gen_seq(rng) for _ in range(n // 8)]
     for i in range(n):
         dom = rng.choice(DOMS)
         local = gen_local(rng)
